@@ -166,13 +166,14 @@ type ParamDecl struct {
 
 // SDoc selects one member of the document family.
 type SDoc struct {
-	SecOp    string      `json:"sec_op,omitempty"`  // operation-level requirement shape: "" (absent) | single | or | and | empty_req | empty_list | or3
-	SecDoc   string      `json:"sec_doc,omitempty"` // document-level requirement shape, same vocabulary
-	Params   []ParamDecl `json:"params,omitempty"`
-	BodyKind string      `json:"body_kind,omitempty"` // "" | json | form | multipart | text
-	BodyReq  bool        `json:"body_req,omitempty"`
-	Body     *Node       `json:"body,omitempty"` // schema of the JSON/form/multipart body
-	Resp     RespDoc     `json:"resp,omitempty"`
+	SecOp      string      `json:"sec_op,omitempty"`  // operation-level requirement shape: "" (absent) | single | or | and | empty_req | empty_list | or3
+	SecDoc     string      `json:"sec_doc,omitempty"` // document-level requirement shape, same vocabulary
+	Params     []ParamDecl `json:"params,omitempty"`
+	PathParams []ParamDecl `json:"path_params,omitempty"` // declared on the path item; one of the same name and location in Params overrides it
+	BodyKind   string      `json:"body_kind,omitempty"`   // "" | json | form | multipart | text
+	BodyReq    bool        `json:"body_req,omitempty"`
+	Body       *Node       `json:"body,omitempty"` // schema of the JSON/form/multipart body
+	Resp       RespDoc     `json:"resp,omitempty"`
 }
 
 // RespDoc describes the responses of the operation (response leg).
@@ -296,6 +297,17 @@ func (d SDoc) JSON() []byte {
 	if len(params) > 0 {
 		op["parameters"] = params
 	}
+	var pathLevel []any
+	for _, p := range d.PathParams {
+		sch := map[string]any{"type": p.Type}
+		if p.Default != nil {
+			sch["default"] = p.Default
+		}
+		if len(p.Enum) > 0 {
+			sch["enum"] = p.Enum
+		}
+		pathLevel = append(pathLevel, map[string]any{"name": p.Name, "in": p.In, "schema": sch})
+	}
 	if d.SecOp != "" {
 		op["security"] = secReqs(d.SecOp)
 	}
@@ -343,7 +355,7 @@ func (d SDoc) JSON() []byte {
 	doc := map[string]any{
 		"openapi": "3.0.3",
 		"info":    map[string]any{"title": "sim-stream", "version": "1"},
-		"paths":   map[string]any{"/thing": map[string]any{"post": op, "head": map[string]any{"responses": responses}}},
+		"paths":   map[string]any{"/thing": pathItem(op, responses, pathLevel)},
 		"components": map[string]any{"securitySchemes": map[string]any{
 			"a": map[string]any{"type": "apiKey", "in": "header", "name": "X-A"},
 			"b": map[string]any{"type": "oauth2", "flows": map[string]any{"implicit": map[string]any{"authorizationUrl": "https://sim.test/auth", "scopes": map[string]any{"read": "r", "write": "w"}}}},
@@ -358,6 +370,32 @@ func (d SDoc) JSON() []byte {
 		panic(err)
 	}
 	return b
+}
+
+func pathItem(op, responses map[string]any, pathLevel []any) map[string]any {
+	pi := map[string]any{"post": op, "head": map[string]any{"responses": responses}}
+	if len(pathLevel) > 0 {
+		pi["parameters"] = pathLevel
+	}
+	return pi
+}
+
+// EffectiveParams are the parameters in effect for the operation: its own plus
+// the path-level ones not overridden by one of the same location and name.
+func (d SDoc) EffectiveParams() []ParamDecl {
+	out := append([]ParamDecl{}, d.Params...)
+	for _, pp := range d.PathParams {
+		overridden := false
+		for _, p := range d.Params {
+			if p.In == pp.In && p.Name == pp.Name {
+				overridden = true
+			}
+		}
+		if !overridden {
+			out = append(out, pp)
+		}
+	}
+	return out
 }
 
 type World struct {
